@@ -650,9 +650,16 @@ def run(tier='quick', seed=0):
                  'where drawn from the true collapse set and its complement, pairs in either order); distinct = (detector, '
                  'mask format, window class, tolerance, target/offset mode, mask source, npts, #reported capped at 2). '
                  'cost: %d monitors (clip=False; clip=True only counted in extra, its meaning is unstated). solve: %d runs (NM/Powell/DE1/DE2 x flat/zero/tied/rosen objective x '
-                 'CollapseAt(None|scalar|list)/CollapseAs/both, Or-ed with VTR(1e-14)); non-trivial = a collapse was applied.'
-                 % (nd, TOLS, nc, ns), bound='histories <= 14 records, <= 5 params / <= 3 measures x 3 points; 3-d solver '
-                 'runs, <= 300 generations, 30 s guard per run')
+                 'CollapseAt(None|scalar|list)/CollapseAs/both, Or-ed with VTR(1e-14)) + %d runs of the same solvers on separable '
+                 'quadratics in 4..6 parameters (CollapseAs) or a product measure npts in {(3),(4),(5),(3,3)} with unit-sum '
+                 'weights (CollapsePosition), Or-ed with ChangeOverGeneration(1e-12,60), whose optimum holds clusters of values '
+                 '0.8*tolerance apart in arbitrary index order (equal / chained / non-transitive ties), started within 0.3*tol '
+                 'or within 0.5 of it; distinct = (solver, size, start, positions in which the pairs of one collapse share a '
+                 'member {first, second, mixed, open = not transitively closed}, sub-cases met {after-earlier-collapse, '
+                 'whole-group-join = the pairs of one collapse connect everything earlier ties reach, simultaneous-collapses = '
+                 'two conditions at once}, window, #collapses capped at 2); non-trivial = a collapse was applied.'
+                 % (nd, TOLS, nc, ns, nt), bound='histories <= 14 records, <= 5 params / <= 3 measures x 3 points; solver '
+                 'runs in 3..6 parameters or <= 2 measures x <= 5 points, <= 400 generations, 30 CPU-s guard per run')
     jobs = [cases[i::64] for i in range(64)] + [[s] for s in solves]
     for parts in pmap(chunk, jobs):
         for part in parts:
